@@ -1032,7 +1032,7 @@ func isUnknownSpec(a predOutcome) predOutcome {
 
 //@ func (*Executor).executeKeyValueMethod
 //@ props C16 C09
-//@ atcall executeNextItem assert [C16 C19 C06 C08] offsets-from-the-source-object: exec.baseObject.addr == addrOf(value) && exec.baseObject.gen == addrOf(arg_value) && exec.baseObject.id == exec.lastGeneratedObjectID && arg_found == found
+//@ atcall executeNextItem assert [C16 C19 C06 C08] offsets-from-the-source-object: exec.baseObject.addr == ite(old(exec.baseObject.gen) != 0 && addrOf(value) == old(exec.baseObject.gen), old(exec.baseObject.addr), addrOf(value)) && exec.baseObject.gen == addrOf(arg_value) && exec.baseObject.id == exec.lastGeneratedObjectID && arg_found == found
 //@ requires node != nil
 //@ loop 1 invariant [C20 C05] no-pending: pendingErr() == nil && !pendingFailed()
 //@ loop 1 invariant status: res == statusOK || res == statusNotFound
